@@ -5,7 +5,7 @@ monitors of the other properties that fire cut the branch without being reported
 """
 from ..explorer import Driver, tick_menu
 from ..rulesgen import rules_xml, groups_of
-from ..monitors import (FsmGraphMonitor, DetectionMonitor, MasterOnlyMonitor, internal_errors, groups,
+from ..monitors import (IsolationMonitor, FsmGraphMonitor, DetectionMonitor, MasterOnlyMonitor, internal_errors, groups,
                         master_of, instance_states)
 from ..world import World, make_scenario
 
@@ -65,7 +65,7 @@ class Cluster(Driver):
             rules_, groups_ = rules_xml(cfg['apps']), groups_of(cfg['apps'], cfg.get('extra_groups'))
         sc = make_scenario(n, config=cfg.get('options'), nicks=cfg.get('nicks'), core=cfg.get('core'),
                            rules=rules_, groups=groups_,
-                           node_of=cfg.get('node_of'), set_order=cfg.get('set_order'))
+                           node_of=cfg.get('node_of'), set_order=cfg.get('set_order'), config_of=cfg.get('config_of'))
         w = World(sc)
         opts = sc['config']
         q = '[supvisors_failure_strategy=SHUTDOWN]' if opts.get('supvisors_failure_strategy') == 'SHUTDOWN' else ''
@@ -73,8 +73,14 @@ class Cluster(Driver):
         w.monitors.append(DetectionMonitor(n, int(opts['inactivity_ticks']), opts['auto_fence'] == 'true'))
         mo = MasterOnlyMonitor()
         w.monitors.append(mo)
+        if 'C13' in self.judge:
+            w.monitors.append(IsolationMonitor(n, cfg.get('mismatch', ())))
         w.budget['F'] = cfg.get('F', 0)
         w.budget['R'] = cfg.get('R', 1 if cfg.get('requests') else 0)
+        if 'hang' in cfg.get('faults', ()):
+            w.budget['H'] = cfg.get('H', 1)
+        if 'lag' in cfg.get('faults', ()):
+            w.budget['L'] = cfg.get('L', 1)
         late = cfg.get('late', [])
         for i in range(n):
             if i in late:
@@ -126,6 +132,14 @@ class Cluster(Driver):
                     and all(frozenset((i, j)) in w.cut for j in range(w.n) if j != i)]
         if 'stall' in faults:
             evs += [('resume', i, j) for (i, j) in sorted(w.stalled)]
+        if 'hang' in faults:
+            if w.budget.get('H', 0) > 0:
+                evs += [('hang',) + k for k in w.hangable() if list(k) in cfg.get('hangable', [list(k)])]
+            evs += [('unhang',) + k for k in sorted(w.hung)]
+        if 'lag' in faults:
+            if w.budget.get('L', 0) > 0:
+                evs += [('lag',) + k for k in w.laggable() if list(k) in cfg.get('laggable', [list(k)])]
+            evs += [('land',) + k for k in sorted(w.lagging)]
         if w.budget['R'] > 0:
             for req in cfg.get('requests', ()):
                 for i in live:
@@ -143,15 +157,19 @@ class Cluster(Driver):
     def step_check(self, w, ev, obs, cfg):
         if ev[0] in ('crash', 'isolate', 'stall'):
             w.budget['F'] -= 1
-        if ev[0] in ('crash', 'isolate', 'stall', 'restart', 'rejoin', 'resume', 'rpc', 'halt'):
+        if ev[0] in ('crash', 'isolate', 'stall', 'restart', 'rejoin', 'resume', 'rpc', 'halt', 'hang', 'lag'):
             for m in w.monitors:
                 if isinstance(m, ElectionHistory):
                     m.faults.append(tuple(ev[:2]))
         if ev[0] == 'rpc':
             w.budget['R'] -= 1
+        if ev[0] == 'hang':
+            w.budget['H'] -= 1
+        if ev[0] == 'lag':
+            w.budget['L'] -= 1
         if ev[0] == 'restart':
             for m in w.monitors:
-                if isinstance(m, FsmGraphMonitor):
+                if isinstance(m, (FsmGraphMonitor, IsolationMonitor)):
                     m.on_restart(ev[1])
         viols = list(w.violations)
         w.violations = []
